@@ -44,6 +44,14 @@ var c13Assume = []string{
 	"the store's goroutines are awaited by goroutine count between steps (wall clock only bounds the wait: inconclusive)",
 }
 
+var faultAssume = []string{
+	"a transient storage error makes one Read / Copy / List call of the store fail and changes nothing in the storage",
+	"a job that refuses to start because its storage reported an error is restarted (storage works again); refusing is legitimate, starting from an older or no checkpoint as if nothing had happened is not",
+	"publications are awaited through the hook snapshots.publication-ended",
+}
+
+const faultRule = "2..5 seeded steps on one storage (1 in 3 with the id counter started high, 1 in 8 on a real LocalDirectory): a completed checkpoint / a savepoint whose artifact assembly hits ONE transient storage error (reading an operator's checkpoints document, copying a WAL file, the checkpoints document or the job snapshot into the savepoint) followed by a restart / a restart with ONE transient error while listing or reading the snapshot files / a plain restart; then one more checkpoint and restart. Oracles: a checkpoint every member acknowledged whose publication ended has its snapshot file in storage; after every restart the job recovers from the newest checkpoint published to storage (a refused start is followed by a start without fault); every new id exceeds every id handed out before; non-trivial = >=1 fault injected; distinct by (backend, steps)"
+
 func main() {
 	slog.SetDefault(slog.New(slog.NewTextHandler(io.Discard, nil))) // the store logs through the default logger
 	lib.Main(
@@ -58,6 +66,8 @@ func main() {
 			Rule: "deterministic minimal history of the duplicate source-runner acknowledgement: 1 operator, 1 runner; CreateCheckpoint; runner ack; runner ack again; operator ack; the published snapshot is compared with the model as in part sequential"},
 		&lib.Prop{ID: "C13", Part: "crash-prefixes", Level: "fault_enumeration", NCases: n(1000, 30000), Run: c13Case, Assumptions: c13Assume,
 			Rule: "scenarios of 2..6 completed checkpoints (assembly 1..2 x 1..2, every node acknowledges in a seeded order) whose first id walks a list of 40 bases around the borders of the file-name encoding (1,2,3; 14..18; 47,48; 62..64; 190..192; 255,256; 831,832; 1007,1008; 1023,1024; 4095,4096; 2^16+-1; 2^22-1; 2^32+-1; 2^40-1; 2^48+2; 2^63-1; 2^63; 2^64-40) or is random; per checkpoint seeded: savepoint requested before/while pending, the snapshot Write held until 1..2 later checkpoints completed AND were published (forced publication overlap, released in seeded order), the next Remove held the same way (3 snapshot files coexist), a store restart on the live storage. The GateLocation log is then cut after EVERY individual Write/Copy/Remove: a fresh Store.LoadCheckpoint on that image must recover the snapshot with the highest id present (and exactly its content). Retention rule on the whole stream: no Remove of the newest completely written snapshot, no retention notice that omits it. non-trivial = >=1 image with >=2 snapshot files; distinct by scenario hash; distinct image shapes (ids present, name order inverted or not) counted as extra signatures"},
+		&lib.Prop{ID: "C12", Part: "storage-faults", Level: "exploration", NCases: n(300, 8000), Run: storageFaults, Assumptions: faultAssume, Rule: faultRule},
+		&lib.Prop{ID: "C13", Part: "storage-faults", Level: "fault_enumeration", NCases: n(300, 8000), Run: storageFaults, Assumptions: faultAssume, Rule: faultRule},
 		&lib.Prop{ID: "C13", Part: "kf-listing-order", Level: "fault_enumeration", NCases: n(1, 1), Run: kfListingOrder,
 			Rule: "deterministic: empty store, checkpoints 1, 2, 3 without any hold; crash images after every storage operation (the image between Write(3) and Remove(2) holds the files of 2 and 3)"},
 		&lib.Prop{ID: "C13", Part: "kf-publication-overlap", Level: "fault_enumeration", NCases: n(1, 1), Run: kfPublicationOverlap,
